@@ -183,6 +183,17 @@ def factK : Nat → K
 def evalTS (n : Nat) (S : Nat → Nat → TSer n K) (T : TSer n K) (g : Expr K) : TSer n K :=
   Expr.eval (TSer.const n) S T g
 
+/-- forward-mode tangent (`jax.jvp` / `jax.linearize`) of the truncated-series evaluation of a program
+with respect to the series of the state: `V k i` is the tangent of the series of `u^(k)_i`, the time
+series carries no tangent.  (Product rule in the truncated-series ring.) -/
+def jvpTS (n : Nat) (S V : Nat → Nat → TSer n K) (T : TSer n K) : Expr K → TSer n K
+  | .const _ => TSer.const n 0
+  | .var k i => V k i
+  | .time => TSer.const n 0
+  | .add p q => jvpTS n S V T p + jvpTS n S V T q
+  | .mul p q => jvpTS n S V T p * evalTS n S T q + evalTS n S T p * jvpTS n S V T q
+  | .neg p => - jvpTS n S V T p
+
 /-- `jax.experimental.jet.jet(fun, primals, series, factorial_scaled=True)` for the polynomial
 program `fs` (vector valued) in the arguments `u_0, …, u_{K-1}, t`:
 `pu` are the primals of the `u_k`, `su[k] = [s_1, …, s_n]` their series (derivative coefficients,
